@@ -84,7 +84,11 @@ func gen(g *kernel.Rng, seed uint64, tier string) *kernel.Plan {
 	if stalls {
 		n := g.Range(1, 6)
 		for i := 0; i < n; i++ {
-			p.Ops = append(p.Ops, kernel.Op{K: "stall", N: []int64{g.I64n(dur), g.OneOf(1, 500, 3000, 9999, 10000, 15000, 31000, 95000, 400000)}})
+			d := g.OneOf(1, 500, 3000, 9999, 10000, 15000, 31000, 95000, 400000)
+			if dur > 1000000 && g.Bool(0.3) {
+				d = g.OneOf(700000, 1500000) // a pause longer than two of the longest windows
+			}
+			p.Ops = append(p.Ops, kernel.Op{K: "stall", N: []int64{g.I64n(dur), d}})
 		}
 	}
 	na := g.Range(0, 8)
@@ -544,6 +548,13 @@ func run(p *kernel.Plan) (res *kernel.Result) {
 				if staleRun[i] >= per && eventFree >= 2*per && okStale {
 					return fail(fmt.Sprintf("C20/rate-overdue:%ds", int(w.w/time.Second)), "window %v after observation (%v, %d): still reports %v; in the last %d gap-free samples, none a backward step, it never reported the increase against the observation one window earlier (now %v)", w.w, o.at, o.val, v, per, rate(samplerObs[n-per].val, o.val, w.w, scale))
 				}
+			}
+			if n >= 1 && o.at-samplerObs[n-1].at >= w.w && okStale && !okFired && !event && n-1 >= firstNZ {
+				// the gap since the previous sample alone is a full window: whatever
+				// the window's previous sample is, it is at least one window old, so
+				// the window closes at this sample and reports the increase since
+				res.Stat("samples_after_a_gap_of_a_full_window", 1)
+				return fail(fmt.Sprintf("C20/rate-overdue-after-gap:%ds", int(w.w/time.Second)), "window %v after observation (%v, %d): still reports the previous value %v although the previous sample was taken %v earlier", w.w, o.at, o.val, v, o.at-samplerObs[n-1].at)
 			}
 			if event && v == 0 {
 				// at a backward step or a zero observation the meter may start over
